@@ -1434,9 +1434,12 @@ impl HashColumn {
 					table.validate_plan(record.index, log)?;
 				} else {
 					if record.table.index_bits() < tables.index.id.index_bits() {
-						// Insertion into a previously dropped index.
-						log::warn!( target: "parity-db", "Index {} is too old. Current is {}", record.table, tables.index.id);
-						return Err(Error::Corruption("Unexpected log index id".to_string()))
+						// Write to an index that was dropped after its reindexing completed. The
+						// record was enacted before the drop (or removes an entry the new index
+						// does not have): `enact_plan` skips it, so validation must accept it,
+						// otherwise every later record of the log is discarded at recovery.
+						log::debug!( target: "parity-db", "Index {} is too old. Current is {}. Skipped", record.table, tables.index.id);
+						return IndexTable::skip_plan(log)
 					}
 					// Re-launch previously started reindex
 					// TODO: add explicit log records for reindexing events.
@@ -1465,9 +1468,10 @@ impl HashColumn {
 					table.validate_plan(record.index, log)?;
 				} else {
 					if record.table.index_bits() < tables.get_ref_count().id.index_bits() {
-						// Insertion into a previously dropped ref count.
-						log::warn!( target: "parity-db", "Ref count {} is too old. Current is {}", record.table, tables.get_ref_count().id);
-						return Err(Error::Corruption("Unexpected log ref count id".to_string()))
+						// Write to a ref count table that was dropped after its reindexing
+						// completed: skipped by `enact_plan`, so accepted here.
+						log::debug!( target: "parity-db", "Ref count {} is too old. Current is {}. Skipped", record.table, tables.get_ref_count().id);
+						return RefCountTable::skip_plan(log)
 					}
 					// Re-launch previously started reindex
 					// TODO: add explicit log records for reindexing events.
